@@ -86,6 +86,61 @@ def run(rep, tier):
         affine = None
     if affine is not None:
         affine.rule_linear_ops(rep, tier, "C10.D2")
+    rule_key_lifecycle(rep, tier)
+
+
+def rule_key_lifecycle(rep, tier):
+    """D4 (mode level, av/sponge.py): a masked key object stands for its key for
+    its whole life - after init, and after any number of re-randomisations, it
+    extracts to the original key and masked encryption / decryption with it
+    equals the unmasked specification, for every key value and every value of
+    the masking randomness; in several share configurations."""
+    from . import modes, rules_c01
+    from .affine import Unsupported
+    rid = "C10.D4"
+    rep.rule(rid, "a masked key object (fresh or re-randomised) extracts to its key and drives the specification's AEAD")
+    cfgs = [repo.Config("c64"), repo.Config("c32", 3, 2, 3), repo.Config("c64", 2, 1, 2)] if tier == "quick" else \
+        [repo.Config("c64"), repo.Config("c32"), repo.Config("c32", 3, 2, 3), repo.Config("c64", 2, 1, 2), repo.Config("c64", 3, 3, 3),
+         repo.Config("c32", 2, 2, 2), repo.Config("c64", 4, 4, 4), repo.Config("c64", 2, 2, 4)]
+    prep = modes.prepare(tier, cfgs=cfgs)
+    items = []
+    for js, cname, layout, maxs, units in prep:
+        for alg in ("128", "128a", "80pq"):
+            items.append((js, cname, layout, maxs, alg))
+    for d in modes.parallel(items, _lifecycle_worker):
+        rep.merge(d)
+    rep.floor_discharged(rid, 2 * len(items) - 2)
+
+
+def _lifecycle_worker(item):
+    from . import modes, report, rules_c01
+    from .affine import Unsupported
+    js, cname, layout, maxs, alg = item
+    rid = "C10.D4"
+    r = report.Report("C10", "quick")
+    r._known = []
+    m = modes.load_module(js)
+    for fam in ("masked", "masked-rerandomized"):
+        for (a, n) in ((1, 9),):
+            fn = "ascon_masked_key_%s_randomize_with_trng" % ("160" if alg == "80pq" else "128") if fam != "masked" else \
+                "ascon_masked_key_%s_init" % ("160" if alg == "80pq" else "128")
+            try:
+                bad = rules_c01.check_shape(m, layout, maxs, alg, fam, a, n)
+            except Unsupported as e:
+                r.unproved_item(rid, "%s %s %s: %s" % (cname, alg, fam, e))
+                continue
+            except Exception:
+                import traceback
+                r.broken.append("%s %s %s %s: %s" % (rid, cname, alg, fam, traceback.format_exc()[-500:]))
+                continue
+            f = m.funcs.get(fn)
+            if bad:
+                r.violation(rid, "%s:%s" % (fn, bad[0]), f.src if f else fn,
+                            "ASCON-%s with a %s masked key: %s" % (alg, "re-randomised" if fam != "masked" else "fresh", bad[1]),
+                            config=cname)
+            else:
+                r.instance(rid, 1, {"config": cname, "algorithm": alg, "key": fam})
+    return r.export()
 
 
 def _key_param(f):
